@@ -1,19 +1,1669 @@
 package main
 
 import (
+	"bytes"
 	"fmt"
+	"math"
+	"sort"
+	"strconv"
 	"strings"
 )
 
+// ---------------------------------------------------------------------------------------------
+// Implementation-only oracles for store-mode scripts.
+//
+// specRun interprets a script together with the outputs of the IMPLEMENTATION (never the model's)
+// against a tiny reference: rows are a map offset → column → value, a transaction is the list of
+// changes it issued, commit applies them in issue order, rollback discards them. Offsets and
+// "existed" decisions are taken from the implementation's outputs (they are observable facts);
+// that offsets are fresh is checked. Whatever the reference cannot express because the unchanged
+// code violates the property there (findings D8–D12, D14, D20, D22) "taints" the case: the
+// affected checks are skipped from that point and the finding is counted.
+// ---------------------------------------------------------------------------------------------
+
+type specCol struct {
+	kind  string
+	merge string
+}
+
+type specIndex struct {
+	col  string
+	rule []string
+}
+
+type specChange struct {
+	what string // ins, set, merge, bool, del, key
+	off  uint32
+	col  string
+	val  []byte
+}
+
+type specTxn struct {
+	changes    []specChange
+	insOK      []uint32
+	insFailed  []uint32
+	readOnly   bool
+	resized    map[string]bool // off|col that had a resizing merge
+	keysSet    map[string]int
+	filterTaint bool
+	cleared    bool
+	setup      bool
+	selKnown   bool
+	sel        map[uint32]bool
+}
+
+type specColl struct {
+	cols     map[string]specCol
+	indexes  map[string]specIndex
+	sorted   map[string]string
+	trigs    map[string]string // name → column
+	keyCol   string
+	rows     map[uint32]map[string][]byte
+	everHad  map[string]bool
+	txns     map[string]*specTxn
+	lastDump string
+	logger   string
+}
+
+type oracleFailure struct {
+	class string // values, rollback, index, filter, replica, restore, offsets, keys, emit, sorted, trigger, count
+	msg   string
+}
+
+var propClasses = map[string][]string{
+	"C01": {"values", "panic"},
+	"C02": {"rollback", "values", "inflight", "panic"},
+	"C03": {"index", "panic"},
+	"C04": {"filter", "panic"},
+	"C06": {"replica", "panic"},
+	"C07": {"restore", "panic"},
+	"C11": {"offsets", "count", "fresh", "panic"},
+	"C12": {"keys", "panic"},
+	"C15": {"emit", "panic"},
+	"C16": {"sorted", "panic"},
+	"C19": {"trigger", "panic"},
+}
+
+func newSpecColl(logger string) *specColl {
+	return &specColl{cols: map[string]specCol{"expire": {"int64", ""}}, indexes: map[string]specIndex{}, sorted: map[string]string{},
+		trigs: map[string]string{}, rows: map[uint32]map[string][]byte{}, everHad: map[string]bool{}, txns: map[string]*specTxn{}, logger: logger}
+}
+
+func zeroOf(kind string) []byte { return make([]byte, numWidth(kind)) }
+
+// specMerge implements the named merge families on byte patterns
+func specMerge(c specCol, cur, delta []byte) []byte {
+	w := numWidth(c.kind)
+	switch {
+	case c.kind == "float64":
+		a, b := math.Float64frombits(beU(cur)), math.Float64frombits(beU(delta))
+		switch c.merge {
+		case "delta":
+			return delta
+		case "dbl":
+			return be(math.Float64bits(a+a+b), 8)
+		}
+		return be(math.Float64bits(a+b), 8)
+	case c.kind == "float32":
+		a, b := math.Float32frombits(uint32(beU(cur))), math.Float32frombits(uint32(beU(delta)))
+		switch c.merge {
+		case "delta":
+			return delta
+		case "dbl":
+			return be(uint64(math.Float32bits(a+a+b)), 4)
+		}
+		return be(uint64(math.Float32bits(a+b)), 4)
+	case w > 0:
+		a, b := beU(cur), beU(delta)
+		var v uint64
+		switch c.merge {
+		case "delta":
+			return delta
+		case "dbl":
+			v = 2*a + b
+		default:
+			v = a + b
+		}
+		return be(v, w) // be() keeps the low w bytes: wrap-around
+	case c.kind == "string":
+		switch c.merge {
+		case "concat":
+			return append(append([]byte(nil), cur...), delta...)
+		case "keep":
+			return cur
+		}
+		return delta
+	case c.kind == "record":
+		bad := func(b []byte) bool { return len(b) > 0 && b[0] == 0xff }
+		if bad(cur) || bad(delta) {
+			return cur
+		}
+		if c.merge == "concat" {
+			return append(append([]byte(nil), cur...), delta...)
+		}
+		return delta
+	}
+	return delta
+}
+
+func isNaNVal(kind string, v []byte) bool {
+	switch kind {
+	case "float32":
+		f := math.Float32frombits(uint32(beU(v)))
+		return f != f
+	case "float64":
+		f := math.Float64frombits(beU(v))
+		return f != f
+	}
+	return false
+}
+
+type dumpState struct {
+	count, fillwords, live int
+	hashed                 bool
+	rows                   map[uint32]map[string]string
+	order                  []uint32
+	idx                    map[string][]uint32
+	idxHashed              map[string]bool
+	keys                   map[string]uint32
+	keysHashed             bool
+	sorted                 map[string][][2]string
+	commits                string
+}
+
+func parseDump(s string) (*dumpState, bool) {
+	d := &dumpState{rows: map[uint32]map[string]string{}, idx: map[string][]uint32{}, idxHashed: map[string]bool{}, keys: map[string]uint32{}, sorted: map[string][][2]string{}}
+	if !strings.HasPrefix(s, "count=") {
+		return nil, false
+	}
+	section := ""
+	for _, f := range strings.Fields(s) {
+		switch {
+		case strings.HasPrefix(f, "count="):
+			d.count, _ = strconv.Atoi(f[6:])
+			section = ""
+			continue
+		case strings.HasPrefix(f, "fillwords="):
+			d.fillwords, _ = strconv.Atoi(f[10:])
+			continue
+		case strings.HasPrefix(f, "live="):
+			d.live, _ = strconv.Atoi(f[5:])
+			continue
+		case strings.HasPrefix(f, "rows="):
+			section = "rows"
+			f = f[5:]
+			if strings.HasPrefix(f, "H") {
+				d.hashed = true
+				continue
+			}
+		case strings.HasPrefix(f, "idx:"):
+			eq := strings.Index(f, "=")
+			section = f[:eq]
+			name := f[4:eq]
+			f = f[eq+1:]
+			d.idx[name] = []uint32{}
+			if strings.HasPrefix(f, "H") {
+				d.idxHashed[name] = true
+				continue
+			}
+		case strings.HasPrefix(f, "keys="):
+			section = "keys"
+			f = f[5:]
+			if strings.HasPrefix(f, "H") {
+				d.keysHashed = true
+				continue
+			}
+		case strings.HasPrefix(f, "sorted:"):
+			eq := strings.Index(f, "=")
+			section = f[:eq]
+			d.sorted[f[7:eq]] = [][2]string{}
+			f = f[eq+1:]
+			if strings.HasPrefix(f, "H") {
+				continue
+			}
+		case strings.HasPrefix(f, "commits="):
+			d.commits = f[8:]
+			section = ""
+			continue
+		}
+		if f == "" {
+			continue
+		}
+		switch {
+		case section == "rows":
+			j := strings.Index(f, "{")
+			if j <= 0 {
+				continue
+			}
+			off, _ := strconv.ParseUint(f[:j], 10, 32)
+			vals := map[string]string{}
+			body := strings.TrimSuffix(f[j+1:], "}")
+			if body != "" {
+				for _, kv := range strings.Split(body, ",") {
+					e := strings.Index(kv, "=")
+					if e > 0 {
+						vals[kv[:e]] = kv[e+1:]
+					}
+				}
+			}
+			d.rows[uint32(off)] = vals
+			d.order = append(d.order, uint32(off))
+		case strings.HasPrefix(section, "idx:"):
+			v, _ := strconv.ParseUint(f, 10, 32)
+			d.idx[section[4:]] = append(d.idx[section[4:]], uint32(v))
+		case section == "keys":
+			e := strings.LastIndex(f, ":")
+			v, _ := strconv.ParseUint(f[e+1:], 10, 32)
+			d.keys[f[:e]] = uint32(v)
+		case strings.HasPrefix(section, "sorted:"):
+			e := strings.LastIndex(f, ":")
+			d.sorted[section[7:]] = append(d.sorted[section[7:]], [2]string{f[:e], f[e+1:]})
+		}
+	}
+	return d, true
+}
+
+// comparable part of a dump: everything except per-collection details (fill length, commit ranks)
+func dumpCore(s string) string {
+	var out []string
+	for _, f := range strings.Fields(s) {
+		if strings.HasPrefix(f, "fillwords=") || strings.HasPrefix(f, "commits=") {
+			continue
+		}
+		out = append(out, f)
+	}
+	return strings.Join(out, " ")
+}
+
+func evalRuleOn(rule []string, kind string, v []byte) bool {
+	switch rule[0] {
+	case "always":
+		return true
+	case "never":
+		return false
+	case "bool":
+		return true
+	case "streq":
+		b, _ := unhex(rule[1])
+		return bytes.Equal(v, b)
+	case "strpfx":
+		b, _ := unhex(rule[1])
+		return bytes.HasPrefix(v, b)
+	}
+	p, ok := parsePred(rule[1])
+	if !ok {
+		return false
+	}
+	switch rule[0] {
+	case "int":
+		return p.int(signedOf(v))
+	case "uint":
+		return p.uint(beU(v))
+	case "float":
+		if len(v) == 4 {
+			return p.float(float64(math.Float32frombits(uint32(beU(v)))))
+		}
+		return p.float(math.Float64frombits(beU(v)))
+	}
+	return false
+}
+
+func signedOf(v []byte) int64 {
+	u := beU(v)
+	switch len(v) {
+	case 2:
+		return int64(int16(u))
+	case 4:
+		return int64(int32(u))
+	}
+	return int64(u)
+}
+
+func convInt64(kind string, v []byte) (int64, bool) {
+	switch kind {
+	case "int16", "int32", "int64", "int":
+		return signedOf(v), true
+	case "uint16", "uint32", "uint64", "uint":
+		return int64(beU(v)), true
+	}
+	return 0, false
+}
+
+func convUint64(kind string, v []byte) (uint64, bool) {
+	switch kind {
+	case "int16", "int32", "int64", "int":
+		return uint64(signedOf(v)), true
+	case "uint16", "uint32", "uint64", "uint":
+		return beU(v), true
+	}
+	return 0, false
+}
+
+func convFloat64(kind string, v []byte) (float64, bool) {
+	switch kind {
+	case "float32":
+		return float64(math.Float32frombits(uint32(beU(v)))), true
+	case "float64":
+		return math.Float64frombits(beU(v)), true
+	case "int16", "int32", "int64", "int":
+		return float64(signedOf(v)), true
+	case "uint16", "uint32", "uint64", "uint":
+		return float64(beU(v)), true
+	}
+	return 0, false
+}
+
+func sortedOffs(m map[uint32]bool) []uint32 {
+	var out []uint32
+	for o, ok := range m {
+		if ok {
+			out = append(out, o)
+		}
+	}
+	sort.Slice(out, func(a, b int) bool { return out[a] < out[b] })
+	return out
+}
+
+func offsList(xs []uint32) string {
+	var s []string
+	for _, x := range xs {
+		s = append(s, strconv.Itoa(int(x)))
+	}
+	return strings.Join(s, " ")
+}
+
+// specRun: see the comment at the top of the file
+func specRun(c Case, out []string) (fails []oracleFailure, taints map[string]int) {
+	taints = map[string]int{}
+	colls := map[string]*specColl{}
+	tainted := map[string]bool{} // collection id → value checks disabled
+	fail := func(class, f string, a ...interface{}) {
+		if len(fails) < 20 {
+			fails = append(fails, oracleFailure{class, fmt.Sprintf(f, a...)})
+		}
+	}
+	taint := func(cid, d string) {
+		taints[d]++
+		tainted[cid] = true
+	}
+	snapOf := map[string]string{} // snapshot id → dump core of the source at snapshot time ("" unknown)
+	snapTaint := map[string]bool{}
+	pendingRestore := map[string]string{}
+	emittedSince := map[string]int{}
+	for i, line := range c.Lines {
+		o := out[i]
+		if o == "panic" || strings.HasPrefix(o, "panic:") {
+			fail("panic", "line %d (%s): the implementation panicked", i, clip(line, 80))
+			return
+		}
+		if o == "dead" || o == "bad-op" {
+			continue
+		}
+		w := strings.Fields(line)
+		if len(w) == 0 {
+			continue
+		}
+		if w[0] == "reset" || w[0] == "hash" {
+			continue
+		}
+		if w[0] == "new" {
+			lg, _ := kv(w[2:], "logger")
+			colls[w[1]] = newSpecColl(lg)
+			delete(tainted, w[1])
+			continue
+		}
+		sc, ok := colls[w[0]]
+		if !ok || len(w) < 2 {
+			continue
+		}
+		cid := w[0]
+		rest := w[1:]
+		switch rest[0] {
+		case "col":
+			if o == "ok" {
+				m, _ := kv(rest[3:], "merge")
+				if rest[2] == "key" {
+					sc.keyCol = rest[1]
+				} else {
+					sc.cols[rest[1]] = specCol{rest[2], m}
+				}
+			}
+		case "index":
+			if o == "ok" {
+				sc.indexes[rest[1]] = specIndex{rest[2], rest[3:]}
+			}
+		case "sortindex":
+			if o == "ok" {
+				sc.sorted[rest[1]] = rest[2]
+			}
+		case "trigger":
+			if o == "ok" {
+				sc.trigs[rest[1]] = rest[2]
+			}
+		case "dropcol":
+			delete(sc.cols, rest[1])
+			for _, r := range sc.rows {
+				delete(r, rest[1])
+			}
+		case "dropindex", "droptrigger":
+			delete(sc.indexes, rest[1])
+			delete(sc.sorted, rest[1])
+			delete(sc.trigs, rest[1])
+		case "begin":
+			sc.txns[rest[1]] = &specTxn{resized: map[string]bool{}, keysSet: map[string]int{}}
+		case "rollback":
+			t := sc.txns[rest[1]]
+			delete(sc.txns, rest[1])
+			if t == nil {
+				continue
+			}
+			if len(t.insOK) > 0 {
+				taint(cid, "D8")
+			}
+			if strings.Contains(o, "trig=") && !tainted[cid] {
+				fail("trigger", "line %d: a rolled back transaction invoked a trigger: %s", i, clip(o, 120))
+			}
+			if !strings.HasPrefix(o, "rolledback") {
+				fail("rollback", "line %d: rollback answered %s", i, clip(o, 80))
+			}
+		case "commit":
+			t := sc.txns[rest[1]]
+			delete(sc.txns, rest[1])
+			if t == nil {
+				continue
+			}
+			specCommit(cid, sc, t, o, i, fail, taint, tainted)
+		case "dump":
+			d, ok := parseDump(o)
+			if !ok {
+				continue
+			}
+			if len(sc.txns) == 0 && d.count != d.live {
+				fail("count", "line %d: Count()=%d but %d rows are live with no transaction in flight", i, d.count, d.live)
+			}
+			if want, ok := pendingRestore[cid]; ok {
+				delete(pendingRestore, cid)
+				if want != "" && dumpCore(o) != want {
+					fail("restore", "line %d: the restored collection differs from the original at snapshot time\n   original: %s\n   restored: %s", i, clip(want, 300), clip(dumpCore(o), 300))
+				}
+			}
+			if cid == "r" {
+				if p, ok := colls["p"]; ok && p.lastDump != "" && !tainted["p"] && !tainted["r"] && emittedSince["p"] == 0 {
+					if dumpCore(o) != p.lastDump {
+						fail("replica", "line %d: the replica differs from the primary\n   primary: %s\n   replica: %s", i, clip(p.lastDump, 300), clip(dumpCore(o), 300))
+					}
+				}
+			}
+			if cid == "p" {
+				sc.lastDump = dumpCore(o)
+				emittedSince["p"] = 0
+			}
+			if !d.hashed && !tainted[cid] && len(sc.txns) == 0 {
+				specCompareRows(sc, d, i, fail)
+			}
+			if !d.hashed && len(sc.txns) == 0 {
+				specCheckIndexes(sc, d, i, fail, tainted[cid])
+				specCheckSorted(sc, d, i, fail)
+				specCheckKeys(sc, d, i, fail, tainted[cid])
+			}
+		case "snapshot":
+			if o == "ok" {
+				if len(sc.txns) == 0 {
+					snapOf[rest[1]] = "?" // filled by the dump that the generator always emits before
+					if sc.lastDump != "" && emittedSince[cid] == 0 {
+						snapOf[rest[1]] = sc.lastDump
+					}
+				} else {
+					snapOf[rest[1]] = ""
+				}
+				snapTaint[rest[1]] = tainted[cid]
+			}
+		case "restore":
+			if o != "ok" && !strings.HasPrefix(o, "ok ") {
+				fail("restore", "line %d: Restore of a snapshot failed: %s", i, o)
+				continue
+			}
+			want := snapOf[rest[1]]
+			if want == "?" || snapTaint[rest[1]] {
+				want = ""
+			}
+			pendingRestore[cid] = want
+			// the restored collection now holds what the source held
+			if src, ok := colls["p"]; ok {
+				sc.rows = map[uint32]map[string][]byte{}
+				for off, r := range src.rows {
+					nr := map[string][]byte{}
+					for k, v := range r {
+						nr[k] = v
+					}
+					sc.rows[off] = nr
+				}
+				if snapTaint[rest[1]] || tainted["p"] {
+					tainted[cid] = true
+				}
+			}
+		case "replay":
+			if !strings.HasPrefix(o, "replayed=") {
+				fail("replica", "line %d: Replay failed: %s", i, o)
+			}
+			if src, ok := colls[rest[1]]; ok {
+				sc.rows = map[uint32]map[string][]byte{}
+				for off, r := range src.rows {
+					nr := map[string][]byte{}
+					for k, v := range r {
+						nr[k] = v
+					}
+					sc.rows[off] = nr
+				}
+				if tainted[rest[1]] {
+					tainted[cid] = true
+				}
+			}
+		case "count":
+		default:
+			t, ok := sc.txns[rest[0]]
+			if !ok || len(rest) < 2 {
+				continue
+			}
+			if rest[1] != "select" && cid == "p" {
+				emittedSince["p"]++
+			}
+			specTxnLine(cid, sc, t, rest[1:], o, i, fail, taint, tainted)
+		}
+	}
+	return
+}
+
+func (sc *specColl) liveNow() map[uint32]bool {
+	m := map[uint32]bool{}
+	for o := range sc.rows {
+		m[o] = true
+	}
+	return m
+}
+
+func specTxnLine(cid string, sc *specColl, t *specTxn, toks []string, o string, i int,
+	fail func(string, string, ...interface{}), taint func(string, string), tainted map[string]bool) {
+	cmd, rest := toks[0], toks[1:]
+	outToks := strings.Fields(o)
+	nextOut := func(pred func(string) bool) string {
+		for k, x := range outToks {
+			if pred(x) {
+				outToks = append(outToks[:k:k], outToks[k+1:]...)
+				return x
+			}
+		}
+		return ""
+	}
+	addActs := func(off uint32, acts []string, isInsert bool) {
+		for _, a := range acts {
+			f := strings.Split(a, ":")
+			switch f[0] {
+			case "set", "merge":
+				v, _ := unhex(f[2])
+				key := fmt.Sprintf("%d|%s", off, f[1])
+				if t.resized[key] {
+					taint(cid, "D12")
+				}
+				if sc.cols[f[1]].kind == "enum" && (string(v) == "e14884" || string(v) == "e28738") {
+					// the two strings have the same 32-bit xxh3 hash: the column interns by hash (finding D20)
+					k := "enum|" + f[1] + "|" + string(v)
+					sc.everHad[k] = true
+					if sc.everHad["enum|"+f[1]+"|e14884"] && sc.everHad["enum|"+f[1]+"|e28738"] {
+						taint(cid, "D20")
+					}
+				}
+				if f[0] == "merge" {
+					col := sc.cols[f[1]]
+					if (col.kind == "string" || col.kind == "record") && col.merge == "concat" {
+						t.resized[key] = true // result length = cur+delta ≠ delta unless cur is empty
+					}
+				}
+				t.changes = append(t.changes, specChange{f[0], off, f[1], v})
+			case "bool":
+				t.changes = append(t.changes, specChange{"bool", off, f[1], []byte(f[2])})
+			case "key":
+				v, _ := unhex(f[1])
+				res := nextOut(func(x string) bool { return x == "set" || x == "dup" })
+				resolves := sc.keyOf(v) >= 0
+				if !tainted[cid] && res != "" && (res == "dup") != resolves {
+					fail("keys", "line %d: SetKey(%s) answered %s but the key %s", i, f[1], res, map[bool]string{true: "is held by a live row", false: "is held by no live row"}[resolves])
+				}
+				if res == "set" {
+					t.keysSet[string(v)]++
+					if t.keysSet[string(v)] > 1 {
+						taint(cid, "D14")
+					}
+					t.changes = append(t.changes, specChange{"key", off, "", v})
+				}
+			}
+		}
+	}
+	switch cmd {
+	case "insert":
+		acts, failFlag := splitActs(rest)
+		off, ok := parseOff(o)
+		if !ok {
+			return
+		}
+		// C11: the offset must not be occupied by a live row or an in-flight insert
+		if _, liveRow := sc.rows[off]; liveRow && !tainted[cid] {
+			fail("fresh", "line %d: insert received offset %d which holds a live row", i, off)
+		}
+		for tid, other := range sc.txns {
+			for _, x := range other.insOK {
+				if x == off && (other != t || true) && !tainted[cid] {
+					fail("fresh", "line %d: insert received offset %d which is reserved by in-flight insert of %s", i, off, tid)
+				}
+			}
+		}
+		if failFlag {
+			t.insFailed = append(t.insFailed, off)
+			t.changes = append(t.changes, specChange{"insfail", off, "", nil})
+			return
+		}
+		t.insOK = append(t.insOK, off)
+		t.changes = append(t.changes, specChange{"ins", off, "", nil})
+		addActs(off, acts, true)
+	case "at":
+		off64, _ := strconv.ParseUint(rest[0], 10, 32)
+		acts, _ := splitActs(rest[1:])
+		addActs(uint32(off64), acts, false)
+		// reads inside the transaction return committed values
+		if !tainted[cid] {
+			for _, f := range strings.Fields(o) {
+				e := strings.Index(f, "=")
+				if e <= 0 {
+					continue
+				}
+				col := f[:e]
+				if sc2, ok := sc.cols[col]; ok {
+					want := "~"
+					if r, ok := sc.rows[uint32(off64)]; ok {
+						if v, ok := r[col]; ok {
+							want = hexOf(v)
+							if sc2.kind == "bool" {
+								want = "1"
+							}
+							if sc2.kind == "record" && len(v) > 0 && v[0] == 0xff {
+								want = "~"
+							}
+						}
+					}
+					if sc2.kind == "bool" && want == "~" {
+						want = "0"
+					}
+					if f[e+1:] != want && !isNaNField(sc2.kind, want) {
+						fail("inflight", "line %d: read of %s at %d inside a transaction returned %s, committed value is %s", i, col, off64, f[e+1:], want)
+					}
+				}
+			}
+		}
+	case "del":
+		off64, _ := strconv.ParseUint(rest[0], 10, 32)
+		if o == "true" {
+			t.changes = append(t.changes, specChange{"del", uint32(off64), "", nil})
+		}
+	case "inskey", "upskey", "qkey":
+		key, _ := unhex(rest[0])
+		acts, failFlag := splitActs(rest[1:])
+		exists := sc.keyOf(key)
+		switch {
+		case strings.HasPrefix(o, "err:exists"):
+			if exists < 0 && !tainted[cid] && sc.keyCol != "" {
+				fail("keys", "line %d: InsertKey(%s) refused although no live row holds the key", i, rest[0])
+			}
+		case strings.HasPrefix(o, "err:notfound"):
+			if exists >= 0 && !tainted[cid] {
+				fail("keys", "line %d: QueryKey(%s) not found although row %d holds the key", i, rest[0], exists)
+			}
+		case strings.HasPrefix(o, "at="):
+			at, _ := strconv.ParseUint(strings.Fields(o)[0][3:], 10, 32)
+			if !tainted[cid] && exists != int64(at) {
+				fail("keys", "line %d: key %s resolved to row %d, the reference holds it at %d", i, rest[0], at, exists)
+			}
+			addActs(uint32(at), acts, false)
+		case strings.HasPrefix(o, "off="):
+			off, _ := parseOff(o)
+			if exists >= 0 && !tainted[cid] {
+				fail("keys", "line %d: %s(%s) created row %d although row %d already holds the key", i, cmd, rest[0], off, exists)
+			}
+			if _, liveRow := sc.rows[off]; liveRow && !tainted[cid] {
+				fail("fresh", "line %d: keyed insert received offset %d which holds a live row", i, off)
+			}
+			if failFlag {
+				t.insFailed = append(t.insFailed, off)
+				t.changes = append(t.changes, specChange{"insfail", off, "", nil})
+			} else {
+				t.insOK = append(t.insOK, off)
+				t.changes = append(t.changes, specChange{"ins", off, "", nil})
+				addActs(off, acts, true)
+			}
+			t.keysSet[string(key)]++
+			if t.keysSet[string(key)] > 1 {
+				taint(cid, "D14")
+			}
+			t.changes = append(t.changes, specChange{"key", off, "", key})
+		}
+	case "delkey":
+		key, _ := unhex(rest[0])
+		exists := sc.keyOf(key)
+		if o == "ok" {
+			if exists < 0 && !tainted[cid] {
+				fail("keys", "line %d: DeleteKey(%s) succeeded although no live row holds the key", i, rest[0])
+			} else if exists >= 0 {
+				t.changes = append(t.changes, specChange{"del", uint32(exists), "", nil})
+			}
+		} else if o == "err:notfound" && exists >= 0 && !tainted[cid] {
+			fail("keys", "line %d: DeleteKey(%s) not found although row %d holds the key", i, rest[0], exists)
+		}
+	case "select":
+		specSelect(cid, sc, t, rest, o, i, fail, taint, tainted)
+	}
+}
+
+func isNaNField(kind, hexv string) bool {
+	v, ok := unhex(hexv)
+	return ok && isNaNVal(kind, v)
+}
+
+func (sc *specColl) keyOf(key []byte) int64 {
+	if sc.keyCol == "" {
+		return -1
+	}
+	for off, r := range sc.rows {
+		if v, ok := r["\x00key"]; ok && bytes.Equal(v, key) {
+			return int64(off)
+		}
+	}
+	return -1
+}
+
+func specCommit(cid string, sc *specColl, t *specTxn, o string, i int,
+	fail func(string, string, ...interface{}), taint func(string, string), tainted map[string]bool) {
+	if !strings.HasPrefix(o, "committed") {
+		fail("values", "line %d: commit answered %s", i, clip(o, 80))
+		return
+	}
+	if len(t.insFailed) > 0 {
+		taint(cid, "D9")
+	}
+	// D10: write to and delete of one row, or a write to a row that is not live
+	del := map[uint32]bool{}
+	ins := map[uint32]bool{}
+	for _, ch := range t.changes {
+		switch ch.what {
+		case "del":
+			del[ch.off] = true
+		case "ins":
+			ins[ch.off] = true
+		}
+	}
+	for _, ch := range t.changes {
+		switch ch.what {
+		case "set", "merge", "bool", "key":
+			_, live := sc.rows[ch.off]
+			if del[ch.off] || (!live && !ins[ch.off]) {
+				taint(cid, "D10")
+			}
+		}
+	}
+	// expected trigger events and changed chunks
+	chunks := map[uint32]bool{}
+	type ev struct {
+		trig string
+		s    string
+	}
+	var wantEv = map[string][]string{}
+	hasMarker := false
+	hasUpdate := false
+	// apply in issue order
+	for _, ch := range t.changes {
+		switch ch.what {
+		case "ins":
+			if _, ok := sc.rows[ch.off]; !ok {
+				sc.rows[ch.off] = map[string][]byte{}
+			}
+			chunks[ch.off>>14] = true
+			hasMarker = true
+		case "insfail":
+			chunks[ch.off>>14] = true
+			hasMarker = true
+		case "del":
+			delete(sc.rows, ch.off)
+			chunks[ch.off>>14] = true
+			hasMarker = true
+			for tn := range sc.trigs {
+				wantEv[tn] = append(wantEv[tn], "") // placeholder: deletions are checked by count
+			}
+		case "set", "merge":
+			col, ok := sc.cols[ch.col]
+			chunks[ch.off>>14] = true
+			if !ok {
+				continue // the column was dropped before the commit
+			}
+			hasUpdate = true
+			r, live := sc.rows[ch.off]
+			if !live {
+				continue
+			}
+			key := fmt.Sprintf("%d|%s", ch.off, ch.col)
+			if ch.what == "set" {
+				r[ch.col] = ch.val
+			} else {
+				cur, has := r[ch.col]
+				if !has {
+					if sc.everHad[key] {
+						taint(cid, "D11")
+					}
+					cur = zeroOf(col.kind)
+				}
+				r[ch.col] = specMerge(col, cur, ch.val)
+			}
+			sc.everHad[key] = true
+		case "bool":
+			chunks[ch.off>>14] = true
+			if _, ok := sc.cols[ch.col]; !ok {
+				continue
+			}
+			hasUpdate = true
+			if r, live := sc.rows[ch.off]; live {
+				if string(ch.val) == "1" {
+					r[ch.col] = []byte{1}
+				} else {
+					delete(r, ch.col)
+				}
+			}
+		case "key":
+			chunks[ch.off>>14] = true
+			hasUpdate = true
+			if r, live := sc.rows[ch.off]; live {
+				r["\x00key"] = ch.val
+			}
+		}
+	}
+	// C15: exactly one commit per changed chunk; nothing when nothing changed
+	if sc.logger != "none" && sc.logger != "" {
+		want := 0
+		if hasMarker || hasUpdate {
+			want = len(chunks)
+		}
+		got := -1
+		for _, f := range strings.Fields(o) {
+			if strings.HasPrefix(f, "emitted=") {
+				got, _ = strconv.Atoi(f[8:])
+			}
+		}
+		if got != want {
+			fail("emit", "line %d: the transaction changed %d chunk(s) but %d commit(s) were emitted (%s)", i, want, got, clip(o, 100))
+		}
+		// ascending chunk order, each once
+		for _, f := range strings.Fields(o) {
+			if strings.HasPrefix(f, "chunks=") && len(f) > 7 {
+				prev := -1
+				for _, x := range strings.Split(f[7:], ",") {
+					v, _ := strconv.Atoi(x)
+					if v <= prev {
+						fail("emit", "line %d: emitted chunks are not strictly ascending: %s", i, f)
+					}
+					if !chunks[uint32(v)] {
+						fail("emit", "line %d: a commit was emitted for chunk %d which the transaction did not touch", i, v)
+					}
+					prev = v
+				}
+			}
+		}
+	}
+	specCheckTriggers(cid, sc, t, o, i, fail, tainted)
+}
+
+// trigger events: exactly one Put event per committed store to the watched column (value = the
+// value finally stored) and one Delete event per committed row deletion, per-row issue order
+func specCheckTriggers(cid string, sc *specColl, t *specTxn, o string, i int,
+	fail func(string, string, ...interface{}), tainted map[string]bool) {
+	if len(sc.trigs) == 0 || tainted[cid] {
+		return
+	}
+	got := map[string][]string{}
+	if j := strings.Index(o, "trig="); j >= 0 {
+		for _, part := range strings.Fields(o[j+5:]) {
+			b := strings.Index(part, "[")
+			if b <= 0 {
+				continue
+			}
+			body := strings.TrimSuffix(part[b+1:], "]")
+			if body != "" {
+				got[part[:b]] = strings.Split(body, ",")
+			}
+		}
+	}
+	for tn, col := range sc.trigs {
+		ccol, isData := sc.cols[col]
+		// expected multiset per row: stores to `col` (in issue order, with running values) and deletions
+		var wantPuts []string
+		nDel := 0
+		run := map[uint32][]byte{}
+		has := map[uint32]bool{}
+		for _, ch := range t.changes {
+			switch {
+			case ch.what == "del":
+				nDel++
+			case (ch.what == "set" || ch.what == "merge") && ch.col == col && isData:
+				cur, ok := run[ch.off]
+				if !ok {
+					// value before the transaction is not needed for sets; for merges it is the committed one,
+					// which the reference has already overwritten — recompute from the final state is not possible,
+					// so merges are checked through the final value only (last event of the row)
+					cur = nil
+				}
+				_ = cur
+				if ch.what == "set" {
+					run[ch.off] = ch.val
+					has[ch.off] = true
+					wantPuts = append(wantPuts, fmt.Sprintf("%d:2:%s", ch.off, hexOf(ch.val)))
+				} else {
+					wantPuts = append(wantPuts, fmt.Sprintf("%d:2:?", ch.off))
+				}
+			case ch.what == "bool" && ch.col == col:
+				if string(ch.val) == "1" {
+					wantPuts = append(wantPuts, fmt.Sprintf("%d:2:-", ch.off))
+				} else {
+					wantPuts = append(wantPuts, fmt.Sprintf("%d:0:-", ch.off))
+				}
+			}
+		}
+		_ = ccol
+		evs := got[tn]
+		// count check
+		nPut, nDelGot := 0, 0
+		for _, e := range evs {
+			f := strings.Split(e, ":")
+			if len(f) == 3 && f[1] == "2" {
+				nPut++
+			} else {
+				nDelGot++
+			}
+		}
+		wantDelEvents := nDel
+		wantPutEvents := 0
+		for _, w := range wantPuts {
+			if strings.Contains(w, ":2:") {
+				wantPutEvents++
+			} else {
+				wantDelEvents++
+			}
+		}
+		if nPut != wantPutEvents || nDelGot != wantDelEvents {
+			fail("trigger", "line %d: trigger %s on %s saw %d store and %d delete events, the transaction committed %d stores and %d deletions (%s)", i, tn, col, nPut, nDelGot, wantPutEvents, wantDelEvents, clip(o, 160))
+			continue
+		}
+		// per-row order and values of stores; the last store event of a row carries the final value
+		perRowWant := map[string][]string{}
+		for _, w := range wantPuts {
+			f := strings.SplitN(w, ":", 3)
+			perRowWant[f[0]] = append(perRowWant[f[0]], f[2])
+		}
+		perRowGot := map[string][]string{}
+		for _, e := range evs {
+			f := strings.SplitN(e, ":", 3)
+			if len(f) == 3 && (f[1] == "2" || isBoolCol(sc, col)) {
+				if !isBoolCol(sc, col) || true {
+					perRowGot[f[0]] = append(perRowGot[f[0]], f[2])
+				}
+			}
+		}
+		for row, ws := range perRowWant {
+			gs := perRowGot[row]
+			if isBoolCol(sc, col) {
+				continue
+			}
+			if len(gs) < len(ws) {
+				continue
+			}
+			for k, wv := range ws {
+				if wv != "?" && gs[k] != wv {
+					fail("trigger", "line %d: trigger %s: store #%d to row %s reported %s, issued %s", i, tn, k, row, gs[k], wv)
+				}
+			}
+			// final value
+			off64, _ := strconv.ParseUint(row, 10, 32)
+			if r, ok := sc.rows[uint32(off64)]; ok {
+				if fv, ok := r[col]; ok && len(gs) > 0 && gs[len(gs)-1] != hexOf(fv) && !isNaNVal(sc.cols[col].kind, fv) {
+					fail("trigger", "line %d: trigger %s: the last store reported for row %s is %s, the value finally stored is %s", i, tn, row, gs[len(gs)-1], hexOf(fv))
+				}
+			}
+		}
+	}
+}
+
+func isBoolCol(sc *specColl, col string) bool { return sc.cols[col].kind == "bool" }
+
+func specCompareRows(sc *specColl, d *dumpState, i int, fail func(string, string, ...interface{})) {
+	for off, r := range sc.rows {
+		dr, ok := d.rows[off]
+		if !ok {
+			fail("values", "line %d: row %d was committed but is not live", i, off)
+			continue
+		}
+		for col, v := range r {
+			if col == "\x00key" {
+				col = sc.keyCol
+			}
+			kind := sc.cols[col].kind
+			want := hexOf(v)
+			if kind == "bool" {
+				want = "01"
+			}
+			if kind == "record" && len(v) > 0 && v[0] == 0xff {
+				continue
+			}
+			if col == sc.keyCol || kind != "" {
+				if got, ok := dr[col]; !ok {
+					fail("values", "line %d: row %d column %s reads absent, last committed value is %s", i, off, col, want)
+				} else if got != want && !isNaNVal(kind, v) {
+					fail("values", "line %d: row %d column %s reads %s, last committed value is %s", i, off, col, got, want)
+				}
+			}
+		}
+		for col, got := range dr {
+			if col == sc.keyCol {
+				if _, ok := r["\x00key"]; !ok {
+					fail("values", "line %d: row %d reads key %s but none was stored since it was inserted", i, off, got)
+				}
+				continue
+			}
+			if _, ok := r[col]; !ok {
+				fail("values", "line %d: row %d column %s reads %s but nothing was stored since the row was inserted", i, off, col, got)
+			}
+		}
+	}
+	for off := range d.rows {
+		if _, ok := sc.rows[off]; !ok {
+			fail("values", "line %d: row %d is live but was never committed (or was deleted)", i, off)
+		}
+	}
+}
+
+// C03: index bits = live rows whose current value (as dumped by the implementation) satisfies the rule
+func specCheckIndexes(sc *specColl, d *dumpState, i int, fail func(string, string, ...interface{}), tainted bool) {
+	for name, ix := range sc.indexes {
+		if d.idxHashed[name] {
+			continue
+		}
+		bits, ok := d.idx[name]
+		if !ok {
+			continue
+		}
+		kind := sc.cols[ix.col].kind
+		if ix.col == sc.keyCol {
+			kind = "key"
+		}
+		want := map[uint32]bool{}
+		for off, r := range d.rows {
+			hv, has := r[ix.col]
+			if !has {
+				continue
+			}
+			v, _ := unhex(hv)
+			if kind == "bool" {
+				want[off] = true
+				continue
+			}
+			if kind == "enum" && tainted {
+				continue
+			}
+			if evalRuleOn(ix.rule, kind, v) {
+				want[off] = true
+			}
+		}
+		got := map[uint32]bool{}
+		for _, b := range bits {
+			got[b] = true
+		}
+		for off := range want {
+			if !got[off] && !tainted {
+				fail("index", "line %d: index %s misses row %d whose value satisfies the rule", i, name, off)
+			}
+		}
+		for off := range got {
+			if !want[off] && !tainted {
+				if _, live := d.rows[off]; live {
+					fail("index", "line %d: index %s contains row %d whose current value does not satisfy the rule (or which holds none)", i, name, off)
+				} else {
+					fail("index", "line %d: index %s contains offset %d which is not a live row", i, name, off)
+				}
+			}
+		}
+	}
+}
+
+// C16 (state part): the sorted index holds exactly the live rows with a value, ordered by (value, offset)
+func specCheckSorted(sc *specColl, d *dumpState, i int, fail func(string, string, ...interface{})) {
+	for name, col := range sc.sorted {
+		es, ok := d.sorted[name]
+		if !ok {
+			continue
+		}
+		seen := map[string]bool{}
+		prevK, prevO := "", -1
+		for n, e := range es {
+			k, _ := unhex(e[0])
+			off, _ := strconv.Atoi(e[1])
+			if seen[e[1]] {
+				fail("sorted", "line %d: sorted index %s holds row %s twice", i, name, e[1])
+			}
+			seen[e[1]] = true
+			if n > 0 && (string(k) < prevK || (string(k) == prevK && off <= prevO)) {
+				fail("sorted", "line %d: sorted index %s is not ordered at entry %d", i, name, n)
+			}
+			prevK, prevO = string(k), off
+			r, live := d.rows[uint32(off)]
+			if !live {
+				fail("sorted", "line %d: sorted index %s holds offset %d which is not a live row", i, name, off)
+				continue
+			}
+			if v, has := r[col]; !has || v != e[0] {
+				fail("sorted", "line %d: sorted index %s holds row %d under %s but its current value is %s", i, name, off, e[0], v)
+			}
+		}
+		for off, r := range d.rows {
+			if _, has := r[col]; has && !seen[strconv.Itoa(int(off))] {
+				fail("sorted", "line %d: sorted index %s misses row %d which holds a value", i, name, off)
+			}
+		}
+	}
+}
+
+// C12 (state part): the key table maps exactly the keys of the live rows to their rows
+func specCheckKeys(sc *specColl, d *dumpState, i int, fail func(string, string, ...interface{}), tainted bool) {
+	if sc.keyCol == "" || d.keysHashed {
+		return
+	}
+	byKey := map[string][]uint32{}
+	for off, r := range d.rows {
+		if k, ok := r[sc.keyCol]; ok {
+			byKey[k] = append(byKey[k], off)
+		}
+	}
+	for k, offs := range byKey {
+		if len(offs) > 1 && !tainted {
+			fail("keys", "line %d: key %s is held by %d live rows %v", i, k, len(offs), offs)
+		}
+		if at, ok := d.keys[k]; !ok {
+			if !tainted {
+				fail("keys", "line %d: key %s of live row %d does not resolve", i, k, offs[0])
+			}
+		} else if len(offs) == 1 && at != offs[0] && !tainted {
+			fail("keys", "line %d: key %s resolves to %d but row %d holds it", i, k, at, offs[0])
+		}
+	}
+	for k, at := range d.keys {
+		if _, ok := byKey[k]; !ok && !tainted {
+			fail("keys", "line %d: key %s resolves to %d but no live row holds it", i, k, at)
+		}
+	}
+}
+
+// ---------------------------------------------------------------------------------------------
+// filters (C04) and sorted iteration (C16): evaluated over the committed rows of the reference
+// ---------------------------------------------------------------------------------------------
+
+func (sc *specColl) bitsOf(name string) (map[uint32]bool, bool) {
+	out := map[uint32]bool{}
+	if col, ok := sc.cols[name]; ok {
+		for off, r := range sc.rows {
+			if _, has := r[name]; has {
+				_ = col
+				out[off] = true
+			}
+		}
+		return out, true
+	}
+	if name == sc.keyCol && name != "" {
+		for off, r := range sc.rows {
+			if _, has := r["\x00key"]; has {
+				out[off] = true
+			}
+		}
+		return out, true
+	}
+	if ix, ok := sc.indexes[name]; ok {
+		kind := sc.cols[ix.col].kind
+		for off, r := range sc.rows {
+			v, has := r[ix.col]
+			if ix.col == sc.keyCol {
+				v, has = r["\x00key"]
+				kind = "key"
+			}
+			if has && (kind == "bool" || evalRuleOn(ix.rule, kind, v)) {
+				out[off] = true
+			}
+		}
+		return out, true
+	}
+	if _, ok := sc.sorted[name]; ok {
+		return out, true // a sorted index has no bitmap: selects nothing
+	}
+	if _, ok := sc.trigs[name]; ok {
+		return out, true
+	}
+	return nil, false
+}
+
+func specSelect(cid string, sc *specColl, t *specTxn, rest []string, o string, i int,
+	fail func(string, string, ...interface{}), taint func(string, string), tainted map[string]bool) {
+	var filters, action []string
+	arrow := false
+	for _, x := range rest {
+		if x == "=>" {
+			arrow = true
+			continue
+		}
+		if arrow {
+			action = append(action, strings.Split(x, ":")...)
+		} else {
+			filters = append(filters, x)
+		}
+	}
+	if !t.setup {
+		// the selection starts from the rows live at this moment, including reservations of in-flight inserts (D17)
+		t.sel = sc.liveNow()
+		t.selKnown = true
+		for _, other := range sc.txns {
+			if len(other.insOK)+len(other.insFailed) > 0 {
+				t.selKnown = false // in-flight reservations are visible (finding D17)
+			}
+		}
+	}
+	first := !t.setup
+	cleared := t.cleared
+	defer func() { t.cleared = cleared }()
+	for _, f := range filters {
+		p := strings.Split(f, ":")
+		names := []string{}
+		if len(p) > 1 && p[1] != "" {
+			names = strings.Split(p[1], ",")
+		}
+		switch p[0] {
+		case "with":
+			t.setup = true
+			for _, n := range names {
+				b, ok := sc.bitsOf(n)
+				if !ok {
+					cleared = true
+					t.sel = map[uint32]bool{}
+					continue
+				}
+				for off := range t.sel {
+					if !b[off] {
+						delete(t.sel, off)
+					}
+				}
+			}
+		case "without":
+			t.setup = true
+			for _, n := range names {
+				if b, ok := sc.bitsOf(n); ok {
+					for off := range b {
+						delete(t.sel, off)
+					}
+				}
+			}
+		case "union", "withunion":
+			if p[0] == "withunion" && !first {
+				t.setup = true
+				if len(names) == 1 {
+					b, ok := sc.bitsOf(names[0])
+					if !ok {
+						cleared = true
+						t.sel = map[uint32]bool{}
+					} else {
+						for off := range t.sel {
+							if !b[off] {
+								delete(t.sel, off)
+							}
+						}
+					}
+				} else {
+					u := map[uint32]bool{}
+					for _, n := range names {
+						if b, ok := sc.bitsOf(n); ok {
+							for off := range b {
+								u[off] = true
+							}
+						}
+					}
+					for off := range t.sel {
+						if !u[off] {
+							delete(t.sel, off)
+						}
+					}
+				}
+				break
+			}
+			t.setup = true
+			if cleared {
+				t.filterTaint = true // Union after the selection was truncated: finding D22(b)
+				taint(cid, "D22")
+			}
+			for k, n := range names {
+				b, ok := sc.bitsOf(n)
+				if first && k == 0 {
+					if !ok {
+						t.filterTaint = true // first-call Union with a missing first name: D22(a)
+						taint(cid, "D22")
+						continue
+					}
+					for off := range t.sel {
+						if !b[off] {
+							delete(t.sel, off)
+						}
+					}
+					continue
+				}
+				if ok {
+					for off := range b {
+						if _, live := sc.rows[off]; live {
+							t.sel[off] = true
+						}
+					}
+				}
+			}
+			if first && len(names) == 0 {
+				// Union() with no names: all live rows
+			}
+		case "int", "uint", "float", "str", "val":
+			t.setup = true
+			col := p[1]
+			sc2, ok := sc.cols[col]
+			kind := sc2.kind
+			if col == sc.keyCol && col != "" {
+				ok, kind = true, "key"
+			}
+			wrong := !ok
+			if p[0] == "str" && !isTextKind(kind) {
+				wrong = true
+			}
+			if (p[0] == "int" || p[0] == "uint" || p[0] == "float") && numWidth(kind) == 0 {
+				wrong = true
+			}
+			if p[0] == "val" && !ok {
+				if _, isIdx := sc.indexes[col]; isIdx {
+					// WithValue on an index: Value() = Contains
+					b, _ := sc.bitsOf(col)
+					sp, _ := strPred(p[2])
+					for off := range t.sel {
+						if !(b[off] && sp([]byte{1})) {
+							delete(t.sel, off)
+						}
+					}
+					break
+				}
+			}
+			if wrong {
+				cleared = true
+				t.sel = map[uint32]bool{}
+				break
+			}
+			for off := range t.sel {
+				r := sc.rows[off]
+				v, has := r[col]
+				if kind == "key" {
+					v, has = r["\x00key"]
+				}
+				keep := false
+				if has {
+					switch p[0] {
+					case "int":
+						np, _ := parsePred(p[2])
+						if kind == "float32" || kind == "float64" {
+							f, _ := convFloat64(kind, v)
+							if f != f || f >= 9223372036854775808.0 || f < -9223372036854775808.0 {
+								keep = np.int(math.MinInt64)
+							} else {
+								keep = np.int(int64(f))
+							}
+						} else {
+							x, _ := convInt64(kind, v)
+							keep = np.int(x)
+						}
+					case "uint":
+						np, _ := parsePred(p[2])
+						if kind == "float32" || kind == "float64" {
+							t.filterTaint = true // platform-defined conversion; not generated
+						}
+						x, _ := convUint64(kind, v)
+						keep = np.uint(x)
+					case "float":
+						np, _ := parsePred(p[2])
+						x, _ := convFloat64(kind, v)
+						keep = np.float(x)
+					case "str":
+						sp, _ := strPred(p[2])
+						keep = sp(v)
+					case "val":
+						sp, _ := strPred(p[2])
+						if kind == "bool" {
+							keep = sp([]byte{1})
+						} else if kind == "record" {
+							t.filterTaint = true
+						} else {
+							keep = sp(v)
+						}
+					}
+				}
+				if !keep {
+					delete(t.sel, off)
+				}
+			}
+		}
+		first = false
+	}
+	t.setup = true
+	if tainted[cid] || t.filterTaint || !t.selKnown {
+		return
+	}
+	want := sortedOffs(t.sel)
+	switch {
+	case len(action) == 1 && action[0] == "count":
+		if o != fmt.Sprintf("count=%d", len(want)) {
+			fail("filter", "line %d (%s): Count is %s, set algebra over the committed rows gives %d", i, clip(strings.Join(rest, " "), 100), o, len(want))
+		}
+	case len(action) == 1 && action[0] == "range":
+		if strings.HasPrefix(o, "rows=H") {
+			return
+		}
+		if o != "rows="+offsList(want) {
+			fail("filter", "line %d (%s): Range visited [%s], set algebra over the committed rows gives [%s]", i, clip(strings.Join(rest, " "), 100), clip(strings.TrimPrefix(o, "rows="), 200), clip(offsList(want), 200))
+		}
+	case len(action) == 2 && action[0] == "read":
+		if strings.HasPrefix(o, "vals=H") {
+			return
+		}
+		var parts []string
+		col := action[1]
+		for _, off := range want {
+			v, has := sc.rows[off][col]
+			kind := sc.cols[col].kind
+			if _, isIdx := sc.indexes[col]; isIdx {
+				b, _ := sc.bitsOf(col)
+				if b[off] {
+					parts = append(parts, fmt.Sprintf("%d:01", off))
+				} else {
+					parts = append(parts, fmt.Sprintf("%d:~", off))
+				}
+				continue
+			}
+			switch {
+			case !has || (kind == "record" && len(v) > 0 && v[0] == 0xff):
+				parts = append(parts, fmt.Sprintf("%d:~", off))
+			case kind == "bool":
+				parts = append(parts, fmt.Sprintf("%d:01", off))
+			default:
+				parts = append(parts, fmt.Sprintf("%d:%s", off, hexOf(v)))
+			}
+		}
+		if o != "vals="+strings.Join(parts, " ") && !strings.Contains(o, "7ff8") && !strings.Contains(o, "7fc0") {
+			fail("filter", "line %d (%s): iteration read [%s], the committed rows give [%s]", i, clip(strings.Join(rest, " "), 100), clip(strings.TrimPrefix(o, "vals="), 200), clip(strings.Join(parts, " "), 200))
+		}
+	case len(action) == 1 && action[0] == "deleteall":
+		for _, off := range want {
+			t.changes = append(t.changes, specChange{"del", off, "", nil})
+		}
+		if o != fmt.Sprintf("deleted=%d", len(want)) {
+			fail("filter", "line %d: DeleteAll covered %s rows, the selection holds %d", i, o, len(want))
+		}
+	case len(action) == 2 && action[0] == "ascend":
+		col, ok := sc.sorted[action[1]]
+		if !ok {
+			if o != "err:nosort" {
+				fail("sorted", "line %d: Ascend over a missing sorted index answered %s", i, clip(o, 60))
+			}
+			return
+		}
+		if strings.HasPrefix(o, "rows=H") {
+			return
+		}
+		type kv2 struct {
+			k   string
+			off uint32
+		}
+		var es []kv2
+		for _, off := range want {
+			if v, has := sc.rows[off][col]; has {
+				es = append(es, kv2{string(v), off})
+			}
+		}
+		sort.Slice(es, func(a, b int) bool {
+			if es[a].k != es[b].k {
+				return es[a].k < es[b].k
+			}
+			return es[a].off < es[b].off
+		})
+		var offs []uint32
+		for _, e := range es {
+			offs = append(offs, e.off)
+		}
+		got := strings.Fields(strings.TrimPrefix(o, "rows="))
+		// complete, each once, values non-decreasing (ties in any order)
+		gotSet := map[string]int{}
+		for _, g := range got {
+			gotSet[g]++
+		}
+		for _, off := range offs {
+			if gotSet[strconv.Itoa(int(off))] != 1 {
+				fail("sorted", "line %d: Ascend visited row %d %d times (selected rows holding a value: [%s], visited: [%s])", i, off, gotSet[strconv.Itoa(int(off))], clip(offsList(offs), 160), clip(strings.Join(got, " "), 160))
+				return
+			}
+		}
+		if len(got) != len(offs) {
+			fail("sorted", "line %d: Ascend visited %d rows, %d selected rows hold a value", i, len(got), len(offs))
+			return
+		}
+		prev := ""
+		for n, g := range got {
+			off64, _ := strconv.ParseUint(g, 10, 32)
+			k := string(sc.rows[uint32(off64)][col])
+			if n > 0 && k < prev {
+				fail("sorted", "line %d: Ascend is not in non-decreasing order of the current values at position %d", i, n)
+				return
+			}
+			prev = k
+		}
+	case len(action) == 2:
+		specAggregate(sc, want, action[0], action[1], o, i, rest, fail)
+	}
+}
+
+func specAggregate(sc *specColl, sel []uint32, what, col, o string, i int, rest []string, fail func(string, string, ...interface{})) {
+	kind := sc.cols[col].kind
+	w := numWidth(kind)
+	if w == 0 || strings.HasSuffix(o, "=inexact") {
+		return
+	}
+	var vals [][]byte
+	for _, off := range sel {
+		if v, has := sc.rows[off][col]; has {
+			vals = append(vals, v)
+		}
+	}
+	isF := kind == "float32" || kind == "float64"
+	signed := kind == "int16" || kind == "int32" || kind == "int64" || kind == "int"
+	var want string
+	switch what {
+	case "sum", "avg":
+		var usum uint64
+		var fsum float64
+		for _, v := range vals {
+			if isF {
+				f, _ := convFloat64(kind, v)
+				fsum += f
+			} else {
+				usum += beU(v)
+			}
+		}
+		if what == "sum" {
+			if kind == "float32" {
+				want = "sum=" + hexOf(be(uint64(math.Float32bits(float32(fsum))), 4))
+			} else if kind == "float64" {
+				want = "sum=" + hexOf(be(math.Float64bits(fsum), 8))
+			} else {
+				want = "sum=" + hexOf(be(usum, w))
+			}
+		} else {
+			var f float64
+			switch {
+			case isF:
+				f = fsum
+			case signed:
+				f = float64(signedOf(be(usum, w)))
+			default:
+				f = float64(beU(be(usum, w)))
+			}
+			want = "avg=" + floatBits(f/float64(len(vals)))
+		}
+	case "min", "max":
+		if len(vals) == 0 {
+			want = what + "=none"
+			break
+		}
+		best := vals[0]
+		less := func(a, b []byte) bool {
+			switch {
+			case isF:
+				x, _ := convFloat64(kind, a)
+				y, _ := convFloat64(kind, b)
+				return x < y
+			case signed:
+				return signedOf(a) < signedOf(b)
+			}
+			return beU(a) < beU(b)
+		}
+		for _, v := range vals[1:] {
+			if (what == "min" && less(v, best)) || (what == "max" && less(best, v)) {
+				best = v
+			}
+		}
+		want = what + "=" + hexOf(best)
+	default:
+		return
+	}
+	if o != want {
+		fail("filter", "line %d (%s): %s, computed directly over the %d selected rows holding a value: %s", i, clip(strings.Join(rest, " "), 100), o, len(vals), want)
+	}
+}
+
 // storeOracle returns the implementation-only oracle of a property for store-mode scripts.
 func storeOracle(prop string) Oracle {
+	classes := map[string]bool{}
+	for _, c := range propClasses[prop] {
+		classes[c] = true
+	}
 	return func(c Case, out []string) string {
-		for i, o := range out {
-			if o == "panic" {
-				return fmt.Sprintf("line %d (%s): the implementation panicked", i, clip(c.Lines[i], 80))
-			}
-			if strings.HasPrefix(o, "panic:") {
-				return fmt.Sprintf("line %d: %s", i, clip(o, 120))
+		fails, _ := specRun(c, out)
+		for _, f := range fails {
+			if classes[f.class] || len(propClasses[prop]) == 0 {
+				return f.msg
 			}
 		}
 		return ""
